@@ -165,14 +165,19 @@ Qed.
 (* the scan of the root argv: everything but the written context variables and the written help_skip is
    independent of the context variables carried in, and of help_skip unless a class help is asked for *)
 Definition so_core (a : scan_out) :=
-  (so_res a, so_c a, so_unk a, so_pend a, so_chosen a, so_subargs a).
+  (so_res a, so_c a, so_unk a, so_pend a, so_chosen a, so_subargs a, so_subkw a).
+
+(* parse_kwargs is the one context variable the scan READS (at the sub-command token): both sides must have the
+   same value in it — which exec_args guarantees by setting it on entry, whatever was carried in *)
+Ltac pk_tac := first [ assumption | (destruct (pd_dc _ && key_is_d _); simpl; first [reflexivity | assumption]) ].
 
 Lemma scan_root_sim fx D i : forall toks dd dd2 hs hs2 c unk pend cv cv2,
   (fx_hs fx = true \/ hs = hs2 \/ existsb tok_is_clshelp toks = false) ->
   (fx_dd fx = true \/ dd = dd2 \/ existsb tok_mentions_d toks = false) ->
+  cv_pk cv = cv_pk cv2 ->
   so_core (scan_root fx dd D i hs toks c unk pend cv) = so_core (scan_root fx dd2 D i hs2 toks c unk pend cv2).
 Proof.
-  induction toks as [|t r IH]; intros dd dd2 hs hs2 c unk pend cv cv2 H G; [reflexivity|].
+  induction toks as [|t r IH]; intros dd dd2 hs hs2 c unk pend cv cv2 H G P; [reflexivity|].
   assert (Hr : fx_hs fx = true \/ hs = hs2 \/ existsb tok_is_clshelp r = false).
   { destruct H as [H|[H|H]]; auto. simpl in H. apply orb_false_iff in H. tauto. }
   assert (Gr : fx_dd fx = true \/ dd = dd2 \/ existsb tok_mentions_d r = false).
@@ -195,12 +200,22 @@ Proof.
         destruct (cls_for_help _ _ v); [|reflexivity].
         destruct r; reflexivity.
       * rewrite (apply_local_dd fx dd dd2 (d_root D) [] c n v Gn).
-        destruct (apply_local _ _ _ _ _ _ _); try reflexivity; apply IH; assumption.
+        destruct (apply_local _ _ _ _ _ _ _); try reflexivity; apply IH; pk_tac.
     + rewrite (apply_local_dd fx dd dd2 (d_root D) [] c n v Gn).
-      destruct (apply_local _ _ _ _ _ _ _); try reflexivity; apply IH; assumption.
+      destruct (apply_local _ _ _ _ _ _ _); try reflexivity; apply IH; pk_tac.
   - (* TFlag *)
     destruct (str_eqb n s_help); [reflexivity|].
-    destruct (str_eqb n s_print_config && pd_cfg (d_root D)); apply IH; assumption.
+    destruct (str_eqb n s_print_config && pd_cfg (d_root D)); [apply IH; assumption|].
+    destruct (is_suffix_help n) as [h|] eqn:Eh; [|apply IH; assumption].
+    destruct (find_cls h (d_root D)) as [co|]; [|apply IH; assumption].
+    destruct (co_callable co); [reflexivity|].
+    assert (Hsk : (if fx_hs fx then false else hs) = (if fx_hs fx then false else hs2)).
+    { destruct H as [H|[H|H]].
+      - rewrite H; reflexivity.
+      - subst; reflexivity.
+      - simpl in H. rewrite Eh in H. discriminate. }
+    rewrite Hsk.
+    destruct (tl r); reflexivity.
   - (* TCfg *)
     destruct (pd_cfg (d_root D)); [|apply IH; assumption].
     assert (Gi : fx_dd fx = true \/ dd = dd2 \/ items_mention_d items = false).
@@ -216,7 +231,7 @@ Proof.
   - (* TPos *)
     destruct (d_subs D) as [|sp sps] eqn:Es; [apply IH; assumption|].
     destruct (alookup n (sp :: sps)); [|reflexivity].
-    destruct (scan_sub _ _ _ _ _ _ _) as [[[res c'] unk'] pend']. reflexivity.
+    destruct (scan_sub _ _ _ _ _ _ _) as [[[res c'] unk'] pend']. unfold so_core; simpl. rewrite P. reflexivity.
 Qed.
 
 (* with fx_hs the scan never writes help_skip *)
@@ -233,7 +248,10 @@ Proof.
       * destruct (apply_local _ _ _ _ _ _ _); try reflexivity; apply IH; exact F.
     + destruct (apply_local _ _ _ _ _ _ _); try reflexivity; apply IH; exact F.
   - destruct (str_eqb n s_help); [reflexivity|].
-    destruct (str_eqb n s_print_config && pd_cfg (d_root D)); apply IH; exact F.
+    destruct (str_eqb n s_print_config && pd_cfg (d_root D)); [apply IH; exact F|].
+    destruct (is_suffix_help n) as [h|]; [|apply IH; exact F].
+    destruct (find_cls h (d_root D)) as [co|]; [|apply IH; exact F].
+    destruct (co_callable co); [reflexivity|]. destruct (tl r); reflexivity.
   - destruct (pd_cfg (d_root D)); [|apply IH; exact F].
     destruct (apply_items _ UKeep c (bfs D items)) as [c'|c']; [|reflexivity].
     destruct (consume _ _ _ _ _ _ _ _ _) as [[[o1 p1] c1]|]; [reflexivity|apply IH; exact F].
@@ -257,21 +275,26 @@ Definition args_out (D : decl) (so : scan_out) : out :=
            else fst (fst (parse_common D (so_pend so) (so_chosen so) (so_c so) (so_cv so)))
   end.
 
-Lemma exec_args_out fx D i v argv :
-  fst (exec fx D i v (PArgs argv)) =
-  args_out D (scan_root fx (v_ddef v) D i (v_help_skip v) argv ic0 false (v_pending v)
-                {| cv_pk := Some (None, true); cv_sap := Some (LP i []); cv_dk := cv_dk (v_cv v) |}).
+Definition args_scan fx D i v kw argv :=
+  scan_root fx (v_ddef v) D i (v_help_skip v) argv ic0 false (v_pending v)
+            {| cv_pk := Some kw; cv_sap := Some (LP i []); cv_dk := cv_dk (v_cv v) |}.
+
+Lemma exec_args_out fx D i v kw argv :
+  fst (exec_args fx D i v kw argv) =
+  with_subkw (so_subkw (args_scan fx D i v kw argv)) (args_out D (args_scan fx D i v kw argv)).
 Proof.
-  unfold exec, args_out.
+  unfold exec_args, args_out, args_scan.
   destruct (so_res _); [|reflexivity].
   destruct (so_unk _); [reflexivity|].
   destruct (parse_common _ _ _ _ _) as [[o p] c]. reflexivity.
 Qed.
 
 Lemma args_out_core D a b :
-  so_core a = so_core b -> args_out D a = args_out D b.
+  so_core a = so_core b ->
+  with_subkw (so_subkw a) (args_out D a) = with_subkw (so_subkw b) (args_out D b).
 Proof.
   unfold so_core, args_out. intro H.
+  assert (E6 : so_subkw a = so_subkw b) by congruence. rewrite E6.
   assert (E1 : so_res a = so_res b) by congruence.
   assert (E2 : so_c a = so_c b) by congruence.
   assert (E3 : so_unk a = so_unk b) by congruence.
@@ -326,16 +349,21 @@ Proof.
   { intros b E. rewrite E in H4.
     destruct (fx_dd fx); [left; reflexivity|]. destruct (v_ddef v); [|right; left; reflexivity].
     right; right. exact H4. }
-  destruct k as [argv|items|items|items| |d cr sn sd sv|d cr|].
-  - (* parse_args *)
-    rewrite !exec_args_out. apply args_out_core.
+  assert (A : forall kw argv, op_has_clshelp k = existsb tok_is_clshelp argv ->
+              op_mentions_d k = existsb tok_mentions_d argv ->
+              fst (exec_args fx D i v kw argv) = fst (exec_args fx D i v0 kw argv)).
+  { intros kw argv E3 E4.
+    rewrite !exec_args_out. apply args_out_core. unfold args_scan.
     assert (Ep : v_pending v = PNone) by (destruct (v_pending v); [reflexivity|discriminate|discriminate]).
     rewrite Ep. simpl v_pending. simpl v_help_skip. simpl v_ddef.
     apply scan_root_sim.
-    + simpl in H3.
+    + rewrite E3 in H3.
       destruct (fx_hs fx); [left; reflexivity|]. destruct (v_help_skip v); [|right; left; reflexivity].
       right; right. exact H3.
-    + apply S4. reflexivity.
+    + apply S4. exact E4.
+    + reflexivity. }
+  destruct k as [argv|items|items|items| |d cr sn sd sv|d cr| |env dflt argv].
+  - (* parse_args *) apply A; reflexivity.
   - apply exec_items_frame; [exact H1|apply S2; reflexivity|apply S4; reflexivity].
   - apply exec_items_frame; [exact H1|apply S2; reflexivity|apply S4; reflexivity].
   - apply exec_items_frame; [exact H1|apply S2; reflexivity|apply S4; reflexivity].
@@ -343,6 +371,7 @@ Proof.
   - simpl. destruct (cr && negb sv); [reflexivity|]. destruct (sd && d_subreq D && _); reflexivity.
   - simpl. destruct cr; reflexivity.
   - reflexivity.
+  - (* parse_args with keywords *) apply A; reflexivity.
 Qed.
 
 Lemma guard_reads_clean fx s o :
@@ -397,11 +426,12 @@ Lemma exec_pending_pc fx D i v k :
   fx_pc fx = true -> v_pending v = PNone -> w_pending (snd (exec fx D i v k)) = PNone.
 Proof.
   intros F E.
-  destruct k as [argv|items|items|items| |d cr sn sd sv|d cr|]; simpl.
-  - rewrite F.
+  assert (A : forall kw argv, w_pending (snd (exec_args fx D i v kw argv)) = PNone).
+  { intros kw argv. unfold exec_args. rewrite F.
     destruct (so_res _); [|reflexivity].
     destruct (so_unk _); [reflexivity|].
-    destruct (parse_common _ _ _ _ _) as [[o p] c]. reflexivity.
+    destruct (parse_common _ _ _ _ _) as [[o p] c]. reflexivity. }
+  destruct k as [argv|items|items|items| |d cr sn sd sv|d cr| |env dflt argv]; simpl; try apply A.
   - apply exec_items_pending; exact E.
   - apply exec_items_pending; exact E.
   - apply exec_items_pending; exact E.
@@ -435,11 +465,12 @@ Lemma exec_ddef_kept fx D i v k :
   fx_dd fx = true -> w_ddef (snd (exec fx D i v k)) = v_ddef v.
 Proof.
   intro F.
-  destruct k as [argv|items|items|items| |d cr sn sd sv|d cr|]; simpl; try reflexivity.
-  - unfold dd_after. rewrite F.
+  assert (A : forall kw argv, w_ddef (snd (exec_args fx D i v kw argv)) = v_ddef v).
+  { intros kw argv. unfold exec_args, dd_after. rewrite F.
     destruct (so_res _); [|reflexivity].
     destruct (so_unk _); [reflexivity|].
-    destruct (parse_common _ _ _ _ _) as [[o p] c]. reflexivity.
+    destruct (parse_common _ _ _ _ _) as [[o p] c]. reflexivity. }
+  destruct k as [argv|items|items|items| |d cr sn sd sv|d cr| |env dflt argv]; simpl; try reflexivity; try apply A.
   - unfold exec_items, dd_after. rewrite F. destruct (apply_items _ _ _ _) as [c1|c1]; [|reflexivity].
     destruct (parse_common _ _ _ _ _) as [[o p] cv']. reflexivity.
   - unfold exec_items, dd_after. rewrite F. destruct (apply_items _ _ _ _) as [c1|c1]; [|reflexivity].
@@ -474,12 +505,14 @@ Lemma exec_help_skip_kept fx D i v k :
   fx_hs fx = true -> w_help_skip (snd (exec fx D i v k)) = v_help_skip v.
 Proof.
   intro F.
-  destruct k as [argv|items|items|items| |d cr sn sd sv|d cr|]; simpl; try reflexivity.
-  - pose proof (scan_root_hs_kept fx (v_ddef v) D i argv (v_help_skip v) ic0 false (v_pending v)
-                  {| cv_pk := Some (None, true); cv_sap := Some (LP i []); cv_dk := cv_dk (v_cv v) |} F) as K.
+  assert (A : forall kw argv, w_help_skip (snd (exec_args fx D i v kw argv)) = v_help_skip v).
+  { intros kw argv. unfold exec_args.
+    pose proof (scan_root_hs_kept fx (v_ddef v) D i argv (v_help_skip v) ic0 false (v_pending v)
+                  {| cv_pk := Some kw; cv_sap := Some (LP i []); cv_dk := cv_dk (v_cv v) |} F) as K.
     destruct (so_res _); [|exact K].
     destruct (so_unk _); [exact K|].
-    destruct (parse_common _ _ _ _ _) as [[o p] c]. exact K.
+    destruct (parse_common _ _ _ _ _) as [[o p] c]. exact K. }
+  destruct k as [argv|items|items|items| |d cr sn sd sv|d cr| |env dflt argv]; simpl; try reflexivity; try apply A.
   - unfold exec_items. destruct (apply_items _ _ _ _) as [c1|c1]; [|reflexivity].
     destruct (parse_common _ _ _ _ _) as [[o p] cv']. reflexivity.
   - unfold exec_items. destruct (apply_items _ _ _ _) as [c1|c1]; [|reflexivity].
@@ -553,3 +586,60 @@ Proof.
   intro N. rewrite step_state. unfold get_ps, commit; simpl.
   apply nth_set_nth_other. congruence.
 Qed.
+
+(* ------------------------------------------------------------------------------------------------ *)
+(* the keywords a sub-command parser is called with are READ from the parse_kwargs context variable
+   (_actions.py:680); the scan never changes that variable before it reaches the sub-command token, so what is read
+   is what the enclosing parse_args stored on entry — never what an earlier call left behind *)
+Lemma scan_root_subkw fx D i : forall toks dd hs c unk pend cv,
+  so_subkw (scan_root fx dd D i hs toks c unk pend cv) = None \/
+  so_subkw (scan_root fx dd D i hs toks c unk pend cv) = cv_pk cv \/
+  so_subkw (scan_root fx dd D i hs toks c unk pend cv) = Some (None, true).
+Proof.
+  assert (INNER : forall X : option (option bool * bool), forall cv,
+            (X = None \/ X = cv_pk (sap_inner cv) \/ X = Some (None, true)) ->
+            (X = None \/ X = cv_pk cv \/ X = Some (None, true))).
+  { intros X cv [K|[K|K]]; [left; exact K|right; right; exact K|right; right; exact K]. }
+  induction toks as [|t r IH]; intros dd hs c unk pend cv; [left; reflexivity|].
+  destruct t as [n v|n|items|n]; simpl.
+  - destruct (str_eqb n s_print_config && pd_cfg (d_root D)).
+    { destruct (parse_flags _ _); [apply IH|left; reflexivity]. }
+    destruct (is_suffix_help n) as [h|].
+    + destruct (find_cls h (d_root D)) as [co|].
+      * destruct (cls_for_help _ _ v); [|left; reflexivity]. destruct r; left; reflexivity.
+      * destruct (apply_local _ _ _ _ _ _ _); try (left; reflexivity); [|apply IH].
+        destruct (pd_dc _ && key_is_d _); [apply INNER|]; apply IH.
+    + destruct (apply_local _ _ _ _ _ _ _); try (left; reflexivity); [|apply IH].
+      destruct (pd_dc _ && key_is_d _); [apply INNER|]; apply IH.
+  - destruct (str_eqb n s_help); [left; reflexivity|].
+    destruct (str_eqb n s_print_config && pd_cfg (d_root D)); [apply IH|].
+    destruct (is_suffix_help n) as [h|]; [|apply IH].
+    destruct (find_cls h (d_root D)) as [co|]; [|apply IH].
+    destruct (co_callable co); [left; reflexivity|]. destruct (tl r); left; reflexivity.
+  - destruct (pd_cfg (d_root D)); [|apply IH].
+    destruct (apply_items _ UKeep c (bfs D items)) as [c'|c']; [|left; reflexivity].
+    destruct (consume _ _ _ _ _ _ _ _ _) as [[[o1 p1] c1]|]; [left; reflexivity|apply IH].
+  - destruct (d_subs D) as [|sp sps] eqn:Es; [apply IH|].
+    destruct (alookup n (sp :: sps)); [|left; reflexivity].
+    destruct (scan_sub _ _ _ _ _ _ _) as [[[res c'] unk'] pend']. right; left; reflexivity.
+Qed.
+
+Lemma with_subkw_ook x o a b kw : with_subkw x o = OOk a b kw -> kw = x.
+Proof. destruct o; simpl; intro E; try discriminate. inversion E. reflexivity. Qed.
+
+Lemma exec_args_subkw fx D i v kw argv a b x :
+  fst (exec_args fx D i v kw argv) = OOk a b (Some x) -> x = kw \/ x = (None, true).
+Proof.
+  rewrite exec_args_out. intro E. apply with_subkw_ook in E.
+  destruct (scan_root_subkw fx D i argv (v_ddef v) (v_help_skip v) ic0 false (v_pending v)
+              {| cv_pk := Some kw; cv_sap := Some (LP i []); cv_dk := cv_dk (v_cv v) |}) as [K|[K|K]];
+    unfold args_scan in E; rewrite K in E; simpl in E; [discriminate|left; congruence|right; congruence].
+Qed.
+
+Lemma subcommand_keywords_are_this_calls fx Ds s p env dflt argv a b x :
+  snd (step fx Ds s {| op_p := p; op_k := PArgsKw env dflt argv |}) = OOk a b (Some x) -> x = (env, dflt) \/ x = (None, true).
+Proof. rewrite step_out. simpl. apply exec_args_subkw. Qed.
+
+Lemma subcommand_keywords_default fx Ds s p argv a b x :
+  snd (step fx Ds s {| op_p := p; op_k := PArgs argv |}) = OOk a b (Some x) -> x = (None, true).
+Proof. rewrite step_out. simpl. intro E. apply exec_args_subkw in E. destruct E; assumption. Qed.
